@@ -21,6 +21,7 @@ ASSUMPTIONS = ["plane orientation constant in time (as the property states); tra
                "T/D oracles: Richardson central differences, violation iff error > 1e-6*max(1,|D|) + 20*uncertainty"]
 REQUIRED_MONITORS = ["GEO:g_N", "GEO:revisit", "GEO:gamma_F", "T:g_dot", "T:g_ddot", "W:W", "D:g_q", "D:g_dot_q", "D:Wla_q",
                      "T:gamma_F_dot", "W:W_F", "D:gamma_F_q", "D:Wla_F_q", "D:gamma_F_dot_q", "D:gamma_F_dot_u"]
+FORMAT_TWIN = True          # ambient monitor: every System matrix is also requested in the other documented formats (vlib/formattwin.py)
 META = {
     "level_text": "Exploration: generated sphere-plane and sphere-sphere contact systems; gap and slip velocity decided by an independent geometric model, every derivative level by T/W/D oracles on the System-level contact methods; exposed methods must return or raise NotImplementedError. Held on the systems and states generated.",
     "level_note": "float64; plane orientation constant; finite-difference oracles with measured uncertainty.",
